@@ -15,6 +15,9 @@ TRUSTED_BASE = [
     "closed class table (Node, TypedNode, system roots, Tree, TypedTree, FileSystemTree); default node factory",
     "user callbacks are pure oracles that do not mutate the tree; data objects obey the hash/eq contract",
     "partial correctness: termination only where a decreases clause is stated",
+    "generators are modelled eagerly by their yielded sequence: sound where the consumer does not write what the generator still reads (Node.remove_children, which does, is only assumed)",
+    "the message expression of a failing assert is not evaluated (it can raise in CPython: see DESIGN 8.7a)",
+    "assumed contracts / assumed parameter-type variants listed under assumed_contracts are used, never proved; the run-time cross-check evaluates them on real calls",
 ]
 
 
